@@ -25,6 +25,8 @@ type Listener struct {
 	s        *xmpp.Session
 	h        *Handler
 	c        chan *Conn
+	done     chan struct{}
+	doneOnce sync.Once
 	expected map[string]expected
 	eLock    sync.Mutex
 }
@@ -33,11 +35,12 @@ type Listener struct {
 // If the listener is closed by either end pending Accept calls unblock and
 // return an error.
 func (l *Listener) Accept() (net.Conn, error) {
-	conn, ok := <-l.c
-	if !ok {
+	select {
+	case conn := <-l.c:
+		return conn, nil
+	case <-l.done:
 		return nil, errors.New("ibb: accept on closed listener")
 	}
-	return conn, nil
 }
 
 // Expect is like Accept except that it accepts a specific session that has been
@@ -65,6 +68,8 @@ func (l *Listener) Expect(ctx context.Context, from jid.JID, sid string) (net.Co
 	select {
 	case <-ctx.Done():
 		return nil, ctx.Err()
+	case <-l.done:
+		return nil, errors.New("ibb: accept on closed listener")
 	case conn, ok := <-e.c:
 		if !ok {
 			return nil, errors.New("ibb: accept on closed listener")
@@ -80,7 +85,10 @@ func (l *Listener) Close() error {
 	l.h.lM.Lock()
 	defer l.h.lM.Unlock()
 	delete(l.h.l, l.s.LocalAddr().String())
-	close(l.c)
+	// Do not close l.c: the handler may already have looked this listener up and
+	// be about to hand it a stream, and sending on a closed channel would panic
+	// the goroutine that serves the session.
+	l.doneOnce.Do(func() { close(l.done) })
 	return nil
 }
 
